@@ -25,24 +25,40 @@ THEOREMS = [_T + n for n in [
     "C03_point_boundary", "C03_accept_zero", "C03_accept_max_frequency", "C03_reject_above_max",
     "C03_reject_negative", "C03_reject_deep_inside", "C03_reject_deep_inside_line",
     "C03_reject_wrong_arity", "C03_reject_wrong_nesting",
-    "C03_holds_complete", "C03_holds_sound"]]
+    "C03_holds_complete", "C03_holds_sound",
+    # review additions: every rule of the wording per class in elementary terms; geom_type() / the construction
+    # of GEOMETRY_MAPPING; the `Geometry` union (the construction path of every model holding a geometry);
+    # an existing instance handed to geometry_validate (known finding C03-2)
+    "C03_accept_dump_iff", "C03_shape_required", "C03_timestamp_iff", "C03_interval_iff", "C03_box_iff",
+    "C03_linestring_iff", "C03_multipoint_iff", "C03_polygon_iff", "C03_multilinestring_iff",
+    "C03_multipolygon_iff",
+    "C03_membersOkB_sound", "C03_buildTable_wellFormed", "C03_union_unique", "C03_union_eq", "C03_union_agrees",
+    "C03_union_rejects", "C03_union_valid",
+    "C03_instance_passthrough", "C03_instance_revalidate_partial", "C03_instance_wrong_mode"]]
 LEVEL_TEXT = ("Lean theorems over an executable model of the nine geometry classes (pydantic's typed parse of the "
               "annotated shape, then the class's field validators in the code's order and control flow) and of "
               "geometry_validate's mode/tag dispatch: for all rational coordinate structures, construction succeeds iff "
               "the declarative wording accepts (and otherwise fails with a validation error, never a crash), the result "
               "is the input normalised (box swapped, backwards line string reversed), is in normal form, valid, of the "
-              "class named by its tag, and a fixpoint of dump/re-validate; the constructor and the three modes agree. "
+              "class named by its tag, and a fixpoint of dump/re-validate; the constructor and the three modes agree, and "
+              "so does validation against the `Geometry` union (the path by which geometries enter SoundEvent and AOEF "
+              "objects); per class the acceptance condition is proved in elementary terms; the table built from "
+              "geom_type() over the class list is well formed. "
               "Every class's validator chain is re-derived from the source on each run by path-exhaustive symbolic "
               "tracing at fixed shapes and proved equal to the model for all coordinate values; GEOMETRY_MAPPING and "
               "MAX_FREQUENCY are re-extracted and discharged as obligations; exhaustive small structures and random "
               "structures are run differentially through all four entry points.")
 LEVEL_NOTE = ("Trusted: Lean kernel; symbolic tracer (ordered-field semantics); pydantic-core's typed parsing of "
-              "numbers and lists, its handling of `from_attributes`, of Literal/default fields and of ValueError inside "
-              "validators (modelled, and exercised un-stubbed by the differential runs); CPython json and float repr "
-              "round trip. Model tied to the code by regenerated obligations (fixed shapes up to 4 points / 2 rings / "
-              "2 parts) and generator-bounded correspondence. Unmodelled: non-numeric inputs (strings, booleans, "
-              "tuples: pydantic's lax coercions) and non-finite floats (NaN, inf: no rational value) are outside the "
-              "property's 'numeric coordinate structure'; integers beyond 2^53 (rounded by int->float).")
+              "numbers and lists, its handling of `from_attributes`, of Literal/default fields, of unions, of existing "
+              "instances and of ValueError inside validators (modelled, and exercised un-stubbed by the differential "
+              "runs); CPython json and float repr round trip. Model tied to the code by regenerated obligations (fixed "
+              "shapes up to 4 points / 2 rings / 2 parts; GEOMETRY_MAPPING, geom_type(), ALL_GEOMETRY_TYPES, the members "
+              "of the Geometry union, MAX_FREQUENCY) and generator-bounded correspondence. Unmodelled: non-numeric "
+              "inputs (strings, booleans, tuples: pydantic's lax coercions); tag-less inputs of the union; integers "
+              "beyond 2^53 (rounded by int->float). Non-finite floats have no rational value: the property is evaluated "
+              "on them directly on the real objects (known finding C03-1: NaN / +inf times accepted, dumped as null). "
+              "Known finding C03-2: an existing instance is handed back unvalidated by the attributes mode "
+              "(C03_instance_passthrough; C03_instance_revalidate_partial holds for valid instances).")
 TECHNIQUE = ("Lean 4 proof over model; per-class validator chains symbolically traced and proved equal to the model; "
              "table obligations by decide; exhaustive small-structure and random correspondence through four entry points")
 RULE = ("exhaustive shape universes (all nestings to depth 3), exhaustive value tuples over the boundary pool for the "
@@ -51,13 +67,15 @@ RULE = ("exhaustive shape universes (all nestings to depth 3), exhaustive value 
         "dict / json / attributes mode; non-trivial = the implementation accepted the input (an object exists); "
         "distinct = distinct (operation, input)")
 TRUSTED = ["pydantic-core: typed parse of float / List[...] in python and attribute mode, Literal + default handling, "
-           "ValueError inside a field validator becomes ValidationError, other exceptions propagate",
+           "ValueError inside a field validator becomes ValidationError, other exceptions propagate; smart-mode unions "
+           "try every member; an instance of the requested class is returned as it is",
            "CPython json.dumps/json.loads and float repr round trip (json mode)",
            "symbolic tracer: the validator chain is taken from cls.__pydantic_decorators__.field_validators (order, mode)"]
-ASSUMPTIONS = ["inputs are finite numbers: ints with |n| <= 2^53 and binary64 floats, in (nested) lists",
+ASSUMPTIONS = ["model inputs are finite numbers: ints with |n| <= 2^53, binary64 floats and numpy.float64, in (nested) lists",
                "ordered-field semantics for the symbolic tie (validators only compare, no arithmetic)"]
 NOT_COMPARED = ["error messages (only the error class)", "python type of the stored numbers (int inputs become floats)",
-                "non-finite floats and non-numeric inputs: probed and recorded in the notes, never judged"]
+                "non-numeric inputs (strings, booleans, tuples) and tag-less union inputs: not generated",
+                "non-finite floats: no model value; judged by the property's own clauses on the real objects"]
 
 TYPES = ["TimeStamp", "TimeInterval", "Point", "LineString", "Polygon", "BoundingBox",
          "MultiPoint", "MultiLineString", "MultiPolygon"]
@@ -74,7 +92,12 @@ MODES = ["dict", "json", "attributes"]
 
 
 # ---------------------------------------------------------------- raw coordinate structures
-# leaves: "n/d" (a binary64 float with exactly that value) or "i<n>" (a Python int); lists nest freely
+# leaves: "n/d" (a binary64 float with exactly that value), "i<n>" (a Python int) or "f<n/d>" (a numpy.float64
+# with that value - a subclass of float); lists nest freely
+class NpF(Fraction):
+    """marks a leaf that is handed to the code as numpy.float64"""
+
+
 def enc(x):
     if isinstance(x, list):
         return [enc(y) for y in x]
@@ -82,6 +105,8 @@ def enc(x):
         raise TypeError("bool")
     if isinstance(x, int):
         return f"i{x}"
+    if isinstance(x, NpF):
+        return "f" + rat(Fraction(x))
     return rat(x)
 
 
@@ -90,17 +115,21 @@ def to_py(raw):
         return [to_py(x) for x in raw]
     if isinstance(raw, str) and raw.startswith("i"):
         return int(raw[1:])
-    q = Fraction(raw)
+    np64 = isinstance(raw, str) and raw.startswith("f")
+    q = Fraction(raw[1:] if np64 else raw)
     f = float(q)
     if Fraction(f) != q:
         raise InfraError(f"generator produced {raw}, which is not a binary64 value")
+    if np64:
+        import numpy
+        return numpy.float64(f)
     return f
 
 
 def to_model_raw(raw):
     if isinstance(raw, list):
         return [to_model_raw(x) for x in raw]
-    if isinstance(raw, str) and raw.startswith("i"):
+    if isinstance(raw, str) and raw[:1] in ("i", "f"):
         return raw[1:]
     return raw
 
@@ -123,9 +152,13 @@ def _monitor(g):
                                                      and type(g).__name__ == g.type)
     except Exception as e:  # noqa: BLE001
         mon["instance_of_class_named_by_tag"] = repr(e)[:120]
-    for name, thunk in (("json_dump_revalidates_equal", lambda: data.geometry_validate(g.model_dump_json(), mode="json")),
-                        ("dict_dump_revalidates_equal", lambda: data.geometry_validate(g.model_dump(), mode="dict")),
-                        ("object_revalidates_equal", lambda: data.geometry_validate(g, mode="attributes"))):
+    checks = [("json_dump_revalidates_equal", lambda: data.geometry_validate(g.model_dump_json(), mode="json")),
+              ("dict_dump_revalidates_equal", lambda: data.geometry_validate(g.model_dump(), mode="dict")),
+              ("object_revalidates_equal", lambda: data.geometry_validate(g, mode="attributes"))]
+    ta = _union_adapter()
+    if ta is not None:      # the `Geometry` union: the path by which a geometry enters SoundEvent / AOEF objects
+        checks.append(("union_dump_revalidates_equal", lambda: ta.validate_python(g.model_dump())))
+    for name, thunk in checks:
         try:
             r = thunk()
             mon[name] = bool(type(r) is type(g) and r.type == g.type and r.coordinates == g.coordinates)
@@ -150,13 +183,34 @@ def _impl_construct(inp):
     return _canon(cls(**kw))
 
 
+EXTRA = {"id": "7", "coordinate": [1.0, 2.0], "Type": "Point", "uuid": None}
+
+
 def _py_fields(fields):
     d = {}
+    if fields.get("extra"):          # keys / attributes the classes do not declare: ignored
+        d.update(EXTRA)
     if "type" in fields:
         d["type"] = fields["type"]
     if "coordinates" in fields:
         d["coordinates"] = to_py(fields["coordinates"])
     return d
+
+
+_ADAPTER = {}
+
+
+def _union_adapter():
+    """pydantic's validator of the `Geometry` union (None if the code no longer has one)"""
+    from soundevent.data import geometries as G
+    u = getattr(G, "Geometry", None)
+    if u is None:
+        return None
+    if _ADAPTER.get("u") is not u:
+        import pydantic
+        _ADAPTER["u"] = u
+        _ADAPTER["ta"] = pydantic.TypeAdapter(u)
+    return _ADAPTER["ta"]
 
 
 def _py_obj(o):
@@ -177,6 +231,58 @@ def _py_obj(o):
 def _impl_gv(inp):
     from soundevent import data
     return _canon(data.geometry_validate(_py_obj(inp["obj"]), mode=inp["mode"]))
+
+
+def _impl_union(inp):
+    ta = _union_adapter()
+    if ta is None:
+        raise AttributeError("soundevent.data.geometries.Geometry is gone")
+    return _canon(ta.validate_python(_py_obj(inp["obj"])))
+
+
+def _model_union(inp):
+    o = inp["obj"]
+    k = o["kind"]
+    if k in ("dict", "attrs"):
+        d = _doc(o["fields"])
+        return {"src": {"kind": "mapping" if k == "dict" else "object", **d}}
+    return {"src": {"kind": "unusable"}}
+
+
+def _make_instance(inp):
+    """an existing object of class `cls` whose fields were assigned after construction (or, should the
+    classes become frozen, built with model_construct): what a caller who mutated a geometry holds"""
+    from soundevent import data
+    cls = getattr(data, inp["cls"])
+    inst = cls(coordinates=to_py(inp["base"]))
+    try:
+        inst.coordinates = to_py(inp["coordinates"])
+        inst.type = inp["type"]
+        if inst.coordinates != to_py(inp["coordinates"]) or inst.type != inp["type"]:
+            raise ValueError("assignment was intercepted")
+    except Exception:  # noqa: BLE001
+        inst = cls.model_construct(type=inp["type"], coordinates=to_py(inp["coordinates"]))
+    return inst
+
+
+def _impl_instance(inp):
+    from soundevent import data
+    g = data.geometry_validate(_make_instance(inp), mode=inp["mode"])
+    return {"val": {"type": g.type, "cls": type(g).__name__, "coordinates": enc_out(g.coordinates)}}
+
+
+def _model_instance(inp):
+    return {"mode": inp["mode"], "cls": inp["cls"], "type": inp["type"], "coordinates": to_model_raw(inp["coordinates"])}
+
+
+def _compare_instance(inp, io, mo):
+    a = {k: v for k, v in io.items() if k not in ("mon", "trace")} if isinstance(io, dict) else io
+    if a == mo.get("demand"):
+        return None
+    if a == mo.get("asis"):
+        return ("an existing instance is handed back without validation: the attribute object's coordinates are "
+                "neither checked nor normalised (instance pass-through)")
+    return "implementation agrees neither with the model of the code as it is nor with the property"
 
 
 def _doc(fields):
@@ -233,21 +339,37 @@ def _seen(inp):
         if "coordinates" in kw and kw.get("type", inp["cls"]) == inp["cls"]:
             return inp["cls"], kw["coordinates"]
         return None
-    o, mode = inp["obj"], inp["mode"]
+    if "mode" not in inp:        # the union path reads plain mappings only
+        o, mode = inp["obj"], "dict"
+    else:
+        o, mode = inp["obj"], inp["mode"]
     ok = (mode, o["kind"]) in (("dict", "dict"), ("json", "json"), ("attributes", "attrs"))
     if ok and o["fields"].get("type") in TYPES and "coordinates" in o["fields"]:
         return o["fields"]["type"], o["fields"]["coordinates"]
     return None
 
 
+def _lenient(inp):
+    return isinstance(inp.get("obj"), dict) and bool(inp["obj"].get("other_kind"))
+
+
 def _compare(inp, io, mo):
     a = {k: v for k, v in io.items() if k not in ("mon", "trace")} if isinstance(io, dict) else io
+    if a != mo and _lenient(inp) and isinstance(a, dict) and "val" in a:
+        # a mode that is handed the kind of object of another mode refuses it today (so does the model); the
+        # property does not demand the refusal: were it to read the object after all, the object built must be
+        # the one the tagged coordinates determine (judged by `_holds`: monitor + holdsB), nothing else
+        return None
     return None if a == mo else "implementation and model disagree"
 
 
 def _holds(ctx, inp, io):
     """monitor on the real object; the declarative Lean-side test (`holdsB`) is queued and run in a batch"""
     seen = _seen(inp)
+    if seen is None and _lenient(inp) and isinstance(io, dict) and "val" in io:
+        f = inp["obj"].get("fields", {})
+        if f.get("type") in TYPES and "coordinates" in f:
+            seen = (f["type"], f["coordinates"])
     if seen is not None and isinstance(io, dict) and not str(io.get("raise", "")).startswith("crash"):
         out = {"raise": io["raise"]} if "raise" in io else {"val": {"cls": io["val"]["cls"], "coordinates": io["val"]["coordinates"]}}
         q = getattr(ctx, "_c03_queue", None)
@@ -269,6 +391,8 @@ def _flush(ctx, opname):
     res = ctx.model_many("holds", [a for _i, _o, a in q])
     for (inp, io, _a), ok in zip(q, res):
         if ok is not True:
+            # the operation the input belongs to (the corpus stage flushes several operations at once)
+            opname = "construct" if "kw" in inp else ("geometry_validate" if "mode" in inp else "union_validate")
             ctx.fail("property", opname, inp=inp, impl={k: v for k, v in io.items() if k != "trace"},
                      detail="the declarative statement of the property (holdsB) rejects this observed input/output pair")
     ctx.tally("declarative-monitor", len(q))
@@ -284,14 +408,42 @@ OPS = {
                     nontrivial=_nontrivial, shrink=True),
     "geometry_validate": Op("geometry_validate", _impl_gv, to_model=_model_gv, compare=_compare, holds=_holds,
                             nontrivial=_nontrivial, shrink=True),
+    "union_validate": Op("union_validate", _impl_union, to_model=_model_union, compare=_compare, holds=_holds,
+                         nontrivial=_nontrivial, shrink=True),
+    "instance_validate": Op("instance_validate", _impl_instance, to_model=_model_instance, compare=_compare_instance,
+                            nontrivial=_nontrivial),
 }
-FINDING_MATCHERS = {}
+
+
+def _match_instance_passthrough(f, m):
+    """known finding C03-2: only the pass-through itself (the object that went in comes out unchanged)"""
+    if f.op != "instance_validate" or not isinstance(f.impl, dict) or "val" not in f.impl:
+        return False
+    v, inp = f.impl["val"], f.inp
+    return (isinstance(f.model, dict) and f.impl == f.model.get("asis") and v["cls"] == inp["cls"]
+            and v["type"] == inp["type"] == inp["cls"]
+            and v["coordinates"] == enc_out_frac_raw(inp["coordinates"]))
+
+
+def _has_nonfinite(x):
+    if isinstance(x, list):
+        return any(_has_nonfinite(y) for y in x)
+    return x in ("nan", "inf", "-inf", "1e400")
+
+
+def _match_nonfinite(f, m):
+    """known finding C03-1: a non-finite number among the coordinates and the code built an object"""
+    return (f.op == "nonfinite" and isinstance(f.inp, dict) and _has_nonfinite(f.inp.get("coordinates"))
+            and isinstance(f.impl, dict) and "accepted" in f.impl)
+
+
+FINDING_MATCHERS = {"instance_passthrough": _match_instance_passthrough, "nonfinite_accepted": _match_nonfinite}
 
 
 def _run(ctx, batch):
     """batch: list of (op name, input)"""
     ctx._c03_queue = []
-    for name in ("construct", "geometry_validate"):
+    for name in ("construct", "geometry_validate", "union_validate", "instance_validate"):
         inputs = [i for n, i in batch if n == name]
         if inputs:
             ctx.run_cases(OPS[name], inputs)
@@ -299,7 +451,10 @@ def _run(ctx, batch):
     ctx._c03_queue = None
 
 
-def entries(cls, raw, which=("construct",) + tuple(MODES)):
+ALL_ENTRIES = ("construct",) + tuple(MODES) + ("union",)
+
+
+def entries(cls, raw, which=ALL_ENTRIES):
     """the same tagged coordinates through the entry points"""
     out = []
     if "construct" in which:
@@ -311,6 +466,8 @@ def entries(cls, raw, which=("construct",) + tuple(MODES)):
         out.append(("geometry_validate", {"mode": "json", "obj": {"kind": "json", "fields": f}}))
     if "attributes" in which:
         out.append(("geometry_validate", {"mode": "attributes", "obj": {"kind": "attrs", "fields": f}}))
+    if "union" in which:
+        out.append(("union_validate", {"obj": {"kind": "dict", "fields": f}}))
     return out
 
 
@@ -354,7 +511,17 @@ def _tables(ctx):
             default, lits = None, ()
         literal = lits[0] if len(lits) == 1 and isinstance(lits[0], str) else None
         same = getattr(G, name, None) is cls and getattr(data, name, None) is cls
-        shown.append({"key": key, "class": name, "default": default, "literal": list(lits), "exported_class": same})
+        # `cls.geom_type()` (what the table is keyed by; other modules dispatch on it) is observed by calling it
+        gt = default
+        if callable(getattr(cls, "geom_type", None)):
+            try:
+                gt = cls.geom_type()
+            except Exception as e:  # noqa: BLE001
+                gt = repr(e)[:80]
+        shown.append({"key": key, "class": name, "default": default, "literal": list(lits), "exported_class": same,
+                      "geom_type()": gt})
+        if gt != default:
+            default = None
         if not isinstance(key, str) or name not in CTOR or not same or not isinstance(default, str) or literal is None:
             ctor = f"(by exact not_a_geometry_class_of_the_model : SE.Validate.GType)  /- {name} -/"
             default, literal = str(default), str(literal)
@@ -369,6 +536,48 @@ def _tables(ctx):
            "def extracted_dispatch := SE.Proofs.C03.C03_geometryValidate_eq extracted_table\n"
            "  (SE.Proofs.C03.C03_wellFormedB_sound _ extracted_table_wf)\n")
     ctx.obligation("GEOMETRY_MAPPING", src, {"table": "GEOMETRY_MAPPING", "rows": shown})
+
+    def cls_row(cls):
+        name = getattr(cls, "__name__", repr(cls))
+        try:
+            fld = cls.model_fields["type"]
+            default = cls.geom_type() if callable(getattr(cls, "geom_type", None)) else fld.default
+            lits = typing.get_args(fld.annotation)
+        except Exception:  # noqa: BLE001
+            default, lits = None, ()
+        literal = lits[0] if len(lits) == 1 and isinstance(lits[0], str) else None
+        if name not in CTOR or getattr(data, name, None) is not cls or not isinstance(default, str) or literal is None:
+            return (f"⟨(by exact not_a_geometry_class_of_the_model : SE.Validate.GType)  /- {name} -/, "
+                    f"{json.dumps(str(literal))}, {json.dumps(str(default))}⟩"), name
+        return f"⟨{CTOR[name]}, {json.dumps(literal)}, {json.dumps(default)}⟩", name
+    # the `Geometry` union (public: the annotation of every field that holds a geometry)
+    union = getattr(G, "Geometry", None)
+    members = typing.get_args(union) if union is not None else ()
+    if not members:
+        ctx.pre_failed.append("Geometry-union")
+        ctx.fail("obligation", "Geometry-union", detail="soundevent.data.geometries.Geometry is missing or not a Union of classes",
+                 extra={"table": "Geometry"})
+    else:
+        rows = [cls_row(c) for c in members]
+        usrc = ("def extracted_union : List SE.Validate.Cls :=\n  [" + ",\n   ".join(r for r, _ in rows) + "]\n"
+                "theorem extracted_union_ok : SE.Validate.membersOkB extracted_union = true := by decide\n"
+                "-- a tagged mapping validated against the union = geometry_validate in dict mode, at the extracted members\n"
+                "def extracted_union_agrees := SE.Proofs.C03.C03_union_agrees SE.Validate.table\n"
+                "  SE.Proofs.C03.C03_table_wellFormed extracted_union\n"
+                "  (SE.Proofs.C03.C03_membersOkB_sound _ extracted_union_ok)\n")
+        ctx.obligation("Geometry-union", usrc, {"table": "Geometry", "members": [n for _, n in rows]})
+    # how the table is built: {geom.geom_type(): geom for geom in ALL_GEOMETRY_TYPES}.  The list is a private
+    # detail: if it is gone nothing is demanded (the table itself is tied above).
+    all_types = getattr(G, "ALL_GEOMETRY_TYPES", None)
+    if isinstance(all_types, (list, tuple)) and all_types:
+        rows = [cls_row(c) for c in all_types]
+        asrc = ("def extracted_all_types : List SE.Validate.Cls :=\n  [" + ",\n   ".join(r for r, _ in rows) + "]\n"
+                "theorem extracted_all_types_ok : SE.Validate.membersOkB extracted_all_types = true := by decide\n"
+                "def extracted_built_table_wf := SE.Proofs.C03.C03_buildTable_wellFormed extracted_all_types\n"
+                "  (SE.Proofs.C03.C03_membersOkB_sound _ extracted_all_types_ok)\n")
+        ctx.obligation("ALL_GEOMETRY_TYPES", asrc, {"table": "ALL_GEOMETRY_TYPES", "classes": [n for _, n in rows]})
+    else:
+        ctx.note("ALL_GEOMETRY_TYPES is not a list any more: the construction of the table is not tied (the table itself is)")
 
 
 # ---------------------------------------------------------------- tie 1b: validator chains at fixed shapes
@@ -633,6 +842,8 @@ def _ints_variant(x, rng):
         return [_ints_variant(y, rng) for y in x]
     if isinstance(x, Fraction) and x.denominator == 1 and rng.random() < 0.5:
         return int(x)
+    if isinstance(x, Fraction) and rng.random() < 0.1:
+        return NpF(x)               # numpy.float64: a float like any other
     return x
 
 
@@ -808,6 +1019,19 @@ def _exhaustive(ctx, maxf):
                                                "value; every node deleted, duplicated-last, wrapped, emptied, replaced by a number, by its first item, "
                                                "truncated, reversed, ends swapped")
     ctx.tally("exhaustive:single-site", n)
+    # (f) rings and lines over a pool of three points, repetitions included (a ring of three equal points is a ring)
+    n = 0
+    three = [[F(0), F(0)], [F(1), maxf], [F(2), F(1)]]
+    for k in (2, 3, 4):
+        for seq in itertools.product(three, repeat=k):
+            ring = [list(p) for p in seq]
+            batch += entries("Polygon", enc([ring]))
+            batch += entries("MultiPolygon", enc([[three, ring]]), which=("construct", "json", "union"))
+            batch += entries("MultiLineString", enc([ring]), which=("construct", "attributes"))
+            n += 3
+    ctx.exhaustive["rings with repeated points"] = ("Polygon / MultiPolygon (as a hole) / MultiLineString: every point sequence of length 2..4 over "
+                                                    "3 points, repetitions included")
+    ctx.tally("exhaustive:repeated-points", n)
     return batch
 
 
@@ -828,6 +1052,30 @@ def _dispatch_cases(ctx, maxf):
             batch.append(("geometry_validate", {"mode": mode, "obj": {"kind": kind, "fields": {"coordinates": raw}}}))
             batch.append(("geometry_validate", {"mode": mode, "obj": {"kind": kind, "fields": {"type": cls}}}))
         batch.append(("geometry_validate", {"mode": mode, "obj": {"kind": kind, "fields": {}}}))
+    # keys / attributes the classes do not declare are ignored: the tagged coordinates decide alone
+    for mode, kind in (("dict", "dict"), ("json", "json"), ("attributes", "attrs")):
+        for cls, raw in good.items():
+            batch.append(("geometry_validate", {"mode": mode, "obj": {"kind": kind, "fields": {"type": cls, "coordinates": raw, "extra": True}}}))
+    for cls, raw in good.items():
+        batch.append(("union_validate", {"obj": {"kind": "dict", "fields": {"type": cls, "coordinates": raw, "extra": True}}}))
+    # a mode handed the kind of object of another mode (json text / dict / attribute object / list): a validation
+    # error, never a TypeError / AttributeError
+    for mode in MODES:
+        for kind in ("dict", "json", "attrs"):
+            if (mode, kind) in (("dict", "dict"), ("json", "json"), ("attributes", "attrs")):
+                continue
+            for cls in ("TimeStamp", "BoundingBox"):
+                batch.append(("geometry_validate", {"mode": mode, "obj": {"kind": kind, "other_kind": True,
+                                                                          "fields": {"type": cls, "coordinates": good[cls]}}}))
+        batch.append(("geometry_validate", {"mode": mode, "obj": {"kind": "list", "items": enc([F(1)])}}))
+    # the union path: tags, missing parts, attribute objects (python mode does not read attributes), non-mappings
+    for tag in tags:
+        for cls, raw in good.items():
+            batch.append(("union_validate", {"obj": {"kind": "dict", "fields": {"type": tag, "coordinates": raw}}}))
+    for cls, raw in good.items():
+        batch.append(("union_validate", {"obj": {"kind": "dict", "fields": {"type": cls}}}))
+        batch.append(("union_validate", {"obj": {"kind": "attrs", "fields": {"type": cls, "coordinates": raw}}}))
+    batch.append(("union_validate", {"obj": {"kind": "list", "items": enc([F(1)])}}))
     for items in ([], [F(1)], [[F(1), F(2)]]):
         batch.append(("geometry_validate", {"mode": "dict", "obj": {"kind": "list", "items": enc(items)}}))
     for text in TEXTS:
@@ -881,26 +1129,127 @@ def _stage_random(ctx):
     _run(ctx, _random(ctx, Fraction(MODEL_MAXF), ctx.budget(10000, 200000)))
 
 
-def _stage_nonfinite(ctx):
-    """NaN / inf have no rational value and are outside 'numeric coordinate structure' (see notes/C03.md):
-    what the code does with them is recorded, never judged."""
+def _has_shape(cls, x):
+    """x is the coordinates of *some* value of the class (Lean: decode)"""
+    num = lambda v: not isinstance(v, list)  # noqa: E731
+    flat = lambda v, n: isinstance(v, list) and len(v) == n and all(num(y) for y in v)  # noqa: E731
+    pts = lambda v: isinstance(v, list) and all(flat(p, 2) for p in v)  # noqa: E731
+    rings = lambda v: isinstance(v, list) and all(pts(r) for r in v)  # noqa: E731
+    return {"TimeStamp": num, "TimeInterval": lambda v: flat(v, 2), "Point": lambda v: flat(v, 2),
+            "BoundingBox": lambda v: flat(v, 4), "LineString": pts, "MultiPoint": pts, "Polygon": rings,
+            "MultiLineString": rings, "MultiPolygon": lambda v: isinstance(v, list) and all(rings(q) for q in v)}[cls](x)
+
+
+def _instance_cases(ctx, maxf):
+    """an existing geometry object whose fields were assigned after construction, handed to geometry_validate"""
+    pool = _pool()
+    batch = []
+    retag = {"LineString": "MultiPoint", "MultiPoint": "LineString", "Polygon": "MultiLineString",
+             "MultiLineString": "Polygon", "TimeInterval": "Point", "Point": "TimeInterval"}
+    for cls, bases in _bases(maxf).items():
+        base = bases[-1]
+        assigned = [x for b in bases for x in _mutations(b, pool) if _has_shape(cls, x)]
+        if len(assigned) > 160:
+            assigned = assigned[:80] + ctx.rng.sample(assigned[80:], 80)
+        for x in assigned:
+            batch.append(("instance_validate", {"mode": "attributes", "cls": cls, "base": enc(base), "type": cls,
+                                                "coordinates": enc(x)}))
+        for x in assigned[:12]:
+            for mode in ("json", "dict"):
+                batch.append(("instance_validate", {"mode": mode, "cls": cls, "base": enc(base), "type": cls,
+                                                    "coordinates": enc(x)}))
+            if cls in retag:        # the tag names another class of the same shape: read as an attribute object
+                batch.append(("instance_validate", {"mode": "attributes", "cls": cls, "base": enc(base),
+                                                    "type": retag[cls], "coordinates": enc(x)}))
+    ctx.exhaustive["existing instances"] = ("for every class: an object built from a valid base, then `coordinates` assigned every single-site "
+                                            "mutation that keeps the shape of the class (in and out of range, reversed, too few members), "
+                                            "handed to geometry_validate in attributes / json / dict mode; `type` re-assigned to another class "
+                                            "of the same shape")
+    ctx.tally("exhaustive:instances", len(batch))
+    return batch
+
+
+def _stage_instances(ctx):
+    _run(ctx, _instance_cases(ctx, Fraction(MODEL_MAXF)))
+
+
+def _nf(x):
+    if isinstance(x, list):
+        return [_nf(y) for y in x]
+    return {"nan": float("nan"), "inf": float("inf"), "-inf": float("-inf"), "1e400": float("inf")}.get(x, x)
+
+
+def _nf_text(x):
+    if isinstance(x, list):
+        return "[" + ", ".join(_nf_text(y) for y in x) + "]"
+    return {"nan": "NaN", "inf": "Infinity", "-inf": "-Infinity"}.get(x, repr(x) if not isinstance(x, str) else x)
+
+
+def _stage_nonfinite_judged(ctx):
+    """Non-finite numbers (known finding C03-1).  The rational model has no value for them; what the property
+    asks is evaluated directly on the real objects: an object may exist only if every coordinate is >= 0 (NaN is
+    not) and its JSON dump re-validates to an equal geometry (the dump of inf / NaN is `null`)."""
     from soundevent import data
-    obs = []
-    for label, v in (("nan", float("nan")), ("inf", float("inf")), ("-inf", float("-inf"))):
-        for cls, coords in (("TimeStamp", v), ("Point", [v, 1.0]), ("Point", [1.0, v])):
-            try:
-                g = getattr(data, cls)(coordinates=coords)
-                dumped = g.model_dump_json()
+    import math
+    shapes = [("TimeStamp", lambda v: v), ("TimeInterval", lambda v: [0.0, v]), ("Point", lambda v: [v, 1.0]),
+              ("Point", lambda v: [1.0, v]), ("BoundingBox", lambda v: [0.0, 0.0, v, 1.0]),
+              ("LineString", lambda v: [[0.0, 1.0], [v, 1.0]]), ("MultiPoint", lambda v: [[v, 1.0]]),
+              ("Polygon", lambda v: [[[0.0, 0.0], [v, 0.0], [1.0, 1.0]]]),
+              ("MultiLineString", lambda v: [[[0.0, 0.0], [v, 0.0]]]),
+              ("MultiPolygon", lambda v: [[[[0.0, 0.0], [1.0, v], [1.0, 1.0]]]])]
+    n = 0
+    for label in ("nan", "inf", "-inf", "1e400"):
+        for cls, mk in shapes:
+            coords = mk(label)
+            for entry in (("json",) if label == "1e400" else ("construct", "dict", "json", "attributes")):
+                inp = {"cls": cls, "entry": entry, "coordinates": coords}
+                n += 1
                 try:
-                    data.geometry_validate(dumped, mode="json")
-                    rt = "dump re-validates"
+                    if entry == "construct":
+                        g = getattr(data, cls)(coordinates=_nf(coords))
+                    elif entry == "dict":
+                        g = data.geometry_validate({"type": cls, "coordinates": _nf(coords)}, mode="dict")
+                    elif entry == "attributes":
+                        g = data.geometry_validate(types.SimpleNamespace(type=cls, coordinates=_nf(coords)), mode="attributes")
+                    else:       # JSON text: Python's json reads NaN / Infinity, and 1e400 overflows to inf
+                        g = data.geometry_validate('{"type": "%s", "coordinates": %s}' % (cls, _nf_text(coords)), mode="json")
+                except Exception as e:  # noqa: BLE001
+                    from ..core import canon_exc
+                    c = canon_exc(e)
+                    ctx.tally("nonfinite:rejected")
+                    if c["raise"] != "invalid":
+                        ctx.fail("property", "nonfinite", inp=inp, impl=c, detail="a non-finite coordinate is rejected with something "
+                                 "other than a validation error")
+                    continue
+                flat = []
+
+                def walk(v):
+                    if isinstance(v, (list, tuple)):
+                        for y in v:
+                            walk(y)
+                    else:
+                        flat.append(v)
+                walk(g.coordinates)
+                why = []
+                if any(isinstance(v, float) and math.isnan(v) for v in flat):
+                    why.append("a NaN coordinate is neither >= 0 nor within [0, MAX_FREQUENCY]")
+                try:
+                    dumped = g.model_dump_json()
+                    r = data.geometry_validate(dumped, mode="json")
+                    if not (type(r) is type(g) and r.coordinates == g.coordinates):
+                        why.append(f"its JSON dump {dumped} re-validates to a different geometry")
                 except Exception:  # noqa: BLE001
-                    rt = "dump does not re-validate"
-                obs.append(f"{cls}({coords}) accepted, dumps to {dumped}, {rt}")
-            except Exception as e:  # noqa: BLE001
-                obs.append(f"{cls}({coords}) rejected ({type(e).__name__})")
-    ctx.note("out of scope (non-finite numbers), observed only: " + "; ".join(obs))
-    ctx.tally("probe:non-finite", len(obs))
+                    why.append("its JSON dump does not re-validate")
+                if why:
+                    ctx.tally("nonfinite:accepted-in-violation")
+                    ctx.fail("property", "nonfinite", inp=inp, impl={"accepted": repr(g.coordinates)[:200]},
+                             detail="object built from a non-finite coordinate: " + "; ".join(why))
+                else:
+                    ctx.tally("nonfinite:accepted-consistently")
+    ctx.tally("probe:non-finite", n)
+    ctx.note(f"non-finite coordinates (NaN, inf, -inf, JSON text 1e400) in {n} (class, position, entry point) combinations: "
+             f"{ctx.tallies.get('nonfinite:rejected', 0)} rejected, {ctx.tallies.get('nonfinite:accepted-in-violation', 0)} "
+             "accepted although NaN is not >= 0 / the JSON dump (null) does not re-validate (known finding C03-1)")
 
 
 def run(ctx):
@@ -909,8 +1258,9 @@ def run(ctx):
     ctx.stage("discharge", ctx.discharge, ["Proofs.C03", "SoundeventModel.ValidateTactics", "SoundeventModel.Tactics"])
     ctx.stage("corpus", _stage_corpus, ctx)
     ctx.stage("exhaustive", _stage_exhaustive, ctx)
+    ctx.stage("instances", _stage_instances, ctx)
     ctx.stage("random", _stage_random, ctx)
-    ctx.stage("non-finite-probe", _stage_nonfinite, ctx)
+    ctx.stage("non-finite", _stage_nonfinite_judged, ctx)
 
 
 # ---------------------------------------------------------------- directed search after a broken tie
@@ -1007,3 +1357,10 @@ def enc_out_frac(v):
     if isinstance(v, list):
         return [enc_out_frac(x) for x in v]
     return rat(Fraction(v))
+
+
+def enc_out_frac_raw(raw):
+    """raw input coordinates (with int / numpy markers) as the canonical output would show them"""
+    if isinstance(raw, list):
+        return [enc_out_frac_raw(x) for x in raw]
+    return rat(Fraction(raw[1:] if raw[:1] in ("i", "f") else raw))
